@@ -86,6 +86,21 @@ def run(ctx):
                                            "correspondence": "PV.B64filter.run vs bin/b64filter"}, no_input=True,
                                            summary=f"b64filter model/impl differ for child {name} on {docs[:3]!r}")
                     return
+    # thousands of tiny documents (far more descriptors in flight than bytes), with an eager and with a read-everything child
+    for label, docs_, pol in (("3000 one-word documents", [b"w%d" % i for i in range(3000)], ["eager"]),
+                              ("3000 empty documents", [b""] * 3000, ["eager"]),
+                              ("pages, 1500 one-byte documents, pages", [b"page %d " % i * 300 for i in range(40)] + [b"x"] * 1500 + [b"page %d " % i * 300 for i in range(40)], ["eager"]),
+                              ("3000 documents of 3 lines, child answers after reading everything", [b"a%d\nb\nc\n" % i for i in range(3000)], ["readall"])):
+        import wrappers
+        data = b"".join(base64.b64encode(d) + b"\n" for d in docs_)
+        st, out, err, trace = wrappers.run_traced(ctx, ["b64filter"], data, pol, timeout=60)
+        ctx.count("b64filter.many", 1, [label])
+        if st != 0 or out != data:
+            pvlib.report_violation(ctx, "b64filter-many:" + label, {"argv": ["b64filter", "python3", "harness/children/child.py"] + pol, "stdin_hex": hx(data)[:200000],
+                                   "status": st, "lines_out": out.count(b"\n"), "stderr": err.decode(errors="replace")[-300:]},
+                                   summary=f"b64filter with an identity child ({' '.join(pol)}) on {label}: " +
+                                           ("did not finish within 60 s" if st == "HANG" else f"status {st}") + f", {out.count(10)} of {len(docs_)} lines out")
+            break
     # more than two queue pages of documents with long ones at the page multiples, stdin stalling there (the collector is
     # then fully caught up with the feeder exactly at a page boundary)
     import wrappers
